@@ -160,6 +160,18 @@ def instances(tier, seed):
             add([(U3s + "|c1", t)], ["U3"], n, "ctl1 ")
     for t in ([(0, 1, 2), (2, 0, 1)] if tier == "quick" else list(itertools.permutations(range(3), 3))):
         add([(U3s + "|c2", t)], ["U3"], 3, "ctl2 ")
+    # controlled rotations for which the bundled rule is exact on the pinned tree (phi + lambda = 0): symbolic ...
+    for u in ("U3(th0,th1,-th1)", "U3(th0,0,0)", "U3(th0,2*th1,-2*th1)"):
+        for t in ([(0, 1), (1, 0)] if tier == "quick" else list(itertools.permutations(range(3), 2))):
+            add([(u + "|c1", t)], ["U3"], max(t) + 1, "ctlz1 ")
+        for t in ([(2, 0, 1)] if tier == "quick" else [(0, 1, 2), (2, 0, 1), (1, 2, 0)]):
+            add([(u + "|c2", t)], ["U3"], 3, "ctlz2 ")
+    # ... and numeric, with angles outside [0, 2*pi) (negative, beyond one and two turns)
+    for th, ph in [(-1.3, 0.7), (7.0, -6.9), (2 * math.pi + 0.5, 3 * math.pi), (0.4, 0.9), (-4 * math.pi + 0.25, 13.0), (4.5 * math.pi, -0.1)]:
+        add([(f"U3({th!r},{ph!r},{-ph!r})|c1", (1, 0)), ("RX(th0)", (1,))], ["U3"], 2, "numeric-ctl1 ")
+        add([(f"U3({th!r},0.0,0.0)|c1", (0, 1)), ("RX(th0)", (0,))], ["U3"], 2, "numeric-ctl1 ")
+        if tier == "thorough" or th < 0:
+            add([(f"U3({th!r},{ph!r},{-ph!r})|c2", (2, 0, 1)), ("RX(th0)", (1,))], ["U3"], 3, "numeric-ctl2 ")
     mixed = [
         [("H", (0,)), (U3s, (1,)), ("CNOT", (0, 1)), ("RX(th0)", (0,))],
         [("RZ(th1)", (1,)), (U3s, (0,)), ("U3(th2,th0,th1)", (1,)), ("XX(th0)", (1, 0))],
